@@ -296,11 +296,27 @@ func (r *RTPReceiver) Receive(parameters RTPReceiveParameters) error {
 func (r *RTPReceiver) Read(b []byte) (n int, a interceptor.Attributes, err error) {
 	select {
 	case <-r.received:
+		var rtcpInterceptor interceptor.RTCPReader
+		rid := ""
+
+		r.mu.RLock()
 		if len(r.tracks) > 1 {
 			r.log.Errorf(useReadSimulcast)
 		}
+		if len(r.tracks) > 0 {
+			rtcpInterceptor = r.tracks[0].rtcpInterceptor
+			if r.tracks[0].track != nil {
+				rid = r.tracks[0].track.RID()
+			}
+		}
+		r.mu.RUnlock()
 
-		return r.tracks[0].rtcpInterceptor.Read(b, a)
+		// The streams of a RID based track are only bound once its first packet arrived.
+		if rtcpInterceptor == nil {
+			return 0, nil, fmt.Errorf("%w: %s", errRTPReceiverForRIDTrackStreamNotFound, rid)
+		}
+
+		return rtcpInterceptor.Read(b, a)
 	case <-r.closedChan:
 		return 0, nil, io.ErrClosedPipe
 	}
@@ -747,6 +763,11 @@ func (r *RTPReceiver) maybeStartRepairStreamReader(track *trackStreams) { //noli
 func (r *RTPReceiver) SetReadDeadline(t time.Time) error {
 	r.mu.RLock()
 	defer r.mu.RUnlock()
+
+	// The streams of a RID based track are only bound once its first packet arrived.
+	if len(r.tracks) == 0 || r.tracks[0].rtcpReadStream == nil {
+		return fmt.Errorf("%w: no RTCP stream yet", errRTPReceiverForRIDTrackStreamNotFound)
+	}
 
 	return r.tracks[0].rtcpReadStream.SetReadDeadline(t)
 }
